@@ -2,3 +2,4 @@ import LalModel.Props.C16
 #print axioms Lal.Props.C16.clean_restart
 #print axioms Lal.Props.C16.restart_keeps_invariant
 #print axioms Lal.Props.C16.recording_finalised_once
+#print axioms Lal.Props.C16.ts_cache_clean_after_input_ends
